@@ -65,6 +65,8 @@ func (k *Keys) GetCursorPos() (x, y int) {
 
 		// If there is something but not cursor answer, its user input.
 		if len(match) == 0 && len(cursor) > 0 {
+			cursor = k.convertInput(cursor)
+
 			k.mutex.RLock()
 			k.buf = append(k.buf, cursor...)
 			k.mutex.RUnlock()
@@ -78,7 +80,7 @@ func (k *Keys) GetCursorPos() (x, y int) {
 		}
 
 		// Anything read along with the cursor answer is user input as well.
-		if remain := rxRcvCursorPos.ReplaceAll(cursor, nil); len(remain) > 0 {
+		if remain := k.convertInput(rxRcvCursorPos.ReplaceAll(cursor, nil)); len(remain) > 0 {
 			k.mutex.RLock()
 			k.buf = append(k.buf, remain...)
 			k.mutex.RUnlock()
